@@ -40,6 +40,7 @@ func scanResult(name, family string, ok bool, detail string) *OblResult {
 
 func init() {
 	scanKinds["global_const_slice"] = scanGlobalConstSlice
+	scanKinds["global_newint"] = scanGlobalNewInt
 }
 
 func (P *Program) ssaPkg(rel string) *ssa.Package {
@@ -135,4 +136,42 @@ func rootGlobal(v ssa.Value) *ssa.Global {
 			return nil
 		}
 	}
+}
+
+// global_newint: package variable Args[name] is assigned exactly once, in init, the result of
+// math.NewInt(<List[0]>). Validates requires clauses that state such a variable's value.
+func scanGlobalNewInt(P *Program, sp ScanSpec) []*OblResult {
+	pkg := P.ssaPkg(sp.Args["pkg"])
+	if pkg == nil {
+		return []*OblResult{scanResult(sp.Name, "F8", false, "package not loaded: "+sp.Args["pkg"])}
+	}
+	g, ok := pkg.Members[sp.Args["name"]].(*ssa.Global)
+	if !ok {
+		return []*OblResult{scanResult(sp.Name, "F8", false, "no such package variable: "+sp.Args["name"])}
+	}
+	var found []string
+	for fn := range ssautil.AllFunctions(P.SSA) {
+		for _, b := range fn.Blocks {
+			for _, in := range b.Instrs {
+				s, ok := in.(*ssa.Store)
+				if !ok || rootGlobal(s.Addr) != g {
+					continue
+				}
+				desc := CanonName(fn) + ": ?"
+				if call, ok := s.Val.(*ssa.Call); ok {
+					if f := call.Call.StaticCallee(); f != nil && len(call.Call.Args) == 1 {
+						if c, ok := call.Call.Args[0].(*ssa.Const); ok && c.Value != nil {
+							desc = fmt.Sprintf("%s: %s(%s)", fn.Name(), CanonName(f), c.Value.ExactString())
+						}
+					}
+				}
+				found = append(found, desc)
+			}
+		}
+	}
+	want := fmt.Sprintf("init: cosmossdk.io/math.NewInt(%s)", sp.List[0])
+	if len(found) == 1 && found[0] == want {
+		return []*OblResult{scanResult(sp.Name, "F8", true, sp.Args["name"]+" = "+want)}
+	}
+	return []*OblResult{scanResult(sp.Name, "F8", false, fmt.Sprintf("%s is written by %v, contract requires exactly [%s]", sp.Args["name"], found, want))}
 }
